@@ -61,6 +61,9 @@ type infoCase struct {
 	// overflow - the encoder may refuse it loudly or encode it; what it
 	// encodes must be consistent
 	mayRefuse bool
+	// noTrickle: skip the second and third read from chunked sources (sweeps
+	// that call checkInfo hundreds of times per case)
+	noTrickle bool
 	sites     []string // all special sites present
 	classes   []string
 	desc      []string
@@ -374,6 +377,32 @@ func checkInfo(c *infoCase) (*verdict, *failure) {
 			clause = "lists-dropped" // a NULL offset next to non-NULL ones
 		}
 		return v, &failure{key: siteKey(c, clause), msg: fmt.Sprintf("Read of the emitted bytes fails: %v", err)}
+	}
+	// the same bytes from a source that delivers a few bytes per call: the
+	// reader's buffer then moves at other places, and the result must not
+	// depend on that
+	chunks := []int{1 + len(data)%5, 64}
+	switch {
+	case len(data) > 1<<16:
+		chunks = nil
+	case len(data) > 6000:
+		chunks = []int{61}
+	}
+	if c.noTrickle {
+		chunks = nil
+	}
+	for _, chunk := range chunks {
+		var got2 *gtab.Info
+		var err2 error
+		if pn := guard.Try(func() { got2, err2 = gtab.Read(guard.NewTrickle(data, chunk), c.kind) }); pn != nil {
+			return v, &failure{key: siteKey(c, "read-trickle"), msg: fmt.Sprintf("Read from a source delivering %d bytes per call: %s", chunk, pn)}
+		}
+		if err2 != nil {
+			return v, &failure{key: siteKey(c, "read-trickle"), msg: fmt.Sprintf("Read succeeds from a source that fills every request and fails from one delivering %d bytes per call: %v", chunk, err2)}
+		}
+		if err := equal(got, got2); err != nil {
+			return v, &failure{key: siteKey(c, "read-trickle"), msg: fmt.Sprintf("Read returns different tables for the same bytes delivered at once and %d bytes per call: %v", chunk, err)}
+		}
 	}
 	if err := equal(expectInfo(c.info), got); err != nil {
 		clause := "roundtrip"
